@@ -141,6 +141,81 @@ def concrete_metric(T, scale):
     return metric, M
 
 
+class LineMetric:
+    """INTERPRETED data: frames are points on a line (one coordinate per frame, an N x 1 array of symbolic values), the
+    metric is |x - y| computed by the front end on those values.  Unlike the token abstraction this exposes the ELEMENT TYPES
+    of the data to the code under test: 'int' frames are int64 values, off-data initial centers are float64 values (multiples
+    of 1/8, hence exact in the replay).  Point ids: 0..N-1 frames, N.. extra points (initial centers)."""
+
+    def __init__(self, ctx, N, extra=0, frames='int'):
+        self.N = N + extra
+        self.n_frames = N
+        self.frames = frames
+        self.P = z3.Function('P', z3.IntSort(), z3.RealSort())
+        self.pos = []
+        for i in range(N + extra):
+            if frames == 'int' and i < N:
+                v = core.fresh_int('p%d' % i)
+                ctx.add(self.P(i) == z3.ToReal(v.t))
+            else:
+                v = core.fresh_real('p%d' % i)
+                m = z3.Int('p8_%d' % i)
+                ctx.add(core.to_z3_real(v) * 8 == z3.ToReal(m))
+                ctx.add(self.P(i) == core.to_z3_real(v))
+            ctx.add(z3.And(self.P(i) >= -64, self.P(i) <= 64))
+            self.pos.append(v)
+        for i, j in itertools.combinations(range(N + extra), 2):
+            ctx.add(self.P(i) != self.P(j))
+        self.calls = 0
+        self.returned = []
+
+    untouched = Metric.untouched
+
+    def X(self):
+        return funcs.np_array([[v] for v in self.pos[:self.n_frames]], dtype=np.int64 if self.frames == 'int' else np.float64)
+
+    def point(self, i):
+        return funcs.np_array([self.pos[i]], dtype=np.int64 if (self.frames == 'int' and i < self.n_frames) else np.float64)
+
+    def d(self, i, j):
+        if not isinstance(i, SVal) and not isinstance(j, SVal) and int(i) == int(j):
+            return 0.0
+        a, b = self.P(core.to_z3_int(i)), self.P(core.to_z3_int(j))
+        return SFloat(0, z3.If(a >= b, a - b, b - a))
+
+    def __call__(self, X, y):
+        self.calls += 1
+        X = funcs._as_sarr(_unlazy(X))
+        y = funcs._as_sarr(_unlazy(y)) if isinstance(y, (np.ndarray, list, tuple)) else y
+        if isinstance(y, np.ndarray) and y.size != 1:
+            raise Unsupported('metric called with a non-scalar frame')
+        if X.ndim == 1:
+            X = X.reshape(-1, 1)
+        if X.ndim != 2 or X.shape[1] != 1:
+            raise Unsupported('metric called with frames of unexpected shape')
+        yv = y.reshape(-1).cells()[0] if isinstance(y, SArr) else y
+        out = funcs.np_array([abs(x * 1.0 - yv * 1.0) for x in X.reshape(-1).cells()], dtype=float)
+        self.returned.append((out, list(out.cells())))
+        return out
+
+    def values(self, model):
+        return [Fraction(str(model.eval(self.P(i), model_completion=True).as_fraction())) for i in range(self.N)]
+
+    def table(self, model):
+        v = self.values(model)
+        return [[abs(a - b) for b in v] for a in v]
+
+
+def concrete_line_metric():
+    def metric(X, y):
+        out = np.abs(np.asarray(X, dtype=float).reshape(len(X), -1) - np.asarray(y, dtype=float).reshape(1, -1)).sum(axis=1)
+        metric.returned.append((out, out.copy()))
+        return out
+    metric.returned = []
+    metric.untouched = lambda: all(np.array_equal(a, b, equal_nan=True) for a, b in metric.returned)
+    return metric
+
+
 # ----------------------------------------------------------------------------------------------
 # generic (symbolic or concrete) helpers
 # ----------------------------------------------------------------------------------------------
@@ -176,7 +251,7 @@ def cells(a):
     return list(np.asarray(a).tolist()) if not isinstance(a, list) else list(a)
 
 
-def oracle_consistent(N, res, dfun, frame_of=lambda c: c):
+def oracle_consistent(N, res, dfun, frame_of=lambda c: c, same_frame=None):
     """C01: result self-consistency.  Returns list of (label, condition)."""
     c = [x for x in res.center_indices]
     a = cells(res.assignments)
@@ -187,7 +262,7 @@ def oracle_consistent(N, res, dfun, frame_of=lambda c: c):
     if not obs[0][1]:
         return obs
     obs.append(('center-index-in-range', conj([(cj >= 0) & (cj < N) for cj in c])))
-    obs.append(('center-is-frame-at-its-index', conj([frame_of(ctrs[j]) == c[j] for j in range(k)])))
+    obs.append(('center-is-frame-at-its-index', conj([(same_frame(ctrs[j], c[j]) if same_frame else frame_of(ctrs[j]) == c[j]) for j in range(k)])))
     obs.append(('labels-in-range', conj([(ai >= 0) & (ai < k) for ai in a])))
     obs.append(('distance-is-to-assigned-center', conj([d[i] == dfun(i, sel(c, a[i])) for i in range(N)])))
     obs.append(('no-closer-center', conj([dfun(i, c[j]) >= d[i] for i in range(N) for j in range(k)])))
@@ -251,14 +326,18 @@ def run_oracle(obs):
 def _res_out(res, scale=1):
     return {'center_indices': [x for x in res.center_indices],
             'assignments': res.assignments, 'distances': res.distances,
-            'centers': [x for x in res.centers]}
+            'centers': [(x.reshape(-1).cells()[0] if isinstance(x, SArr) and x.ndim == 1 and x.size == 1 else x) for x in res.centers]}
 
 
 def _concrete_out(res, scale):
     return {'center_indices': [int(x) for x in res.center_indices],
             'assignments': [int(x) for x in np.asarray(res.assignments).tolist()],
             'distances': [float(x) / scale for x in np.asarray(res.distances, dtype=float).tolist()],
-            'centers': [int(np.asarray(x)) for x in res.centers]}
+            'centers': [(int if np.asarray(x).dtype.kind in 'iub' else float)(np.asarray(x).reshape(-1)[0]) for x in res.centers]}
+
+
+def _scalar(x):
+    return x.reshape(-1).cells()[0] if isinstance(x, SArr) else x
 
 
 class _R:
@@ -270,23 +349,36 @@ class _R:
 
 
 def kcenters_job(N, mode, k=None, warm=0, tri=False, entry='function', shortcut=None,
-                 approx=False, props=('C01', 'C02'), warm_outside=False):
+                 approx=False, props=('C01', 'C02'), warm_outside=False, data=None):
     """mode: 'n' (n_clusters only), 'r' (radius only), 'both', 'n-None' (dist_cutoff=None),
     'r-None' (n_clusters=None).  warm = number of initial centers (distinct frames, symbolic).
-    shortcut: None = plain run only; 'compare' = run with and without the triangle shortcut."""
+    shortcut: None = plain run only; 'compare' = run with and without the triangle shortcut.
+    data: None = frame tokens + uninterpreted metric; 'int' / 'float' = points on a line with the metric |x - y| computed on
+    the values (LineMetric: exposes the element types of frames and initial centers)"""
     kc, km, hy, cu, ops = mods()
+    if data and warm and not warm_outside:
+        raise ValueError('line data: initial centers are off-data points')
 
     def path(ctx):
         # warm_outside: the initial centers are points that are NOT frames of the data set (tokens N, N+1, ...)
-        M = Metric(ctx, N + (warm if warm_outside else 0), triangle=tri or approx or shortcut is not None)
-        X = SArr.from_typed(np.arange(N))
+        if data:
+            M = LineMetric(ctx, N, warm if warm_outside else 0, frames=data)
+            X = M.X()
+        else:
+            M = Metric(ctx, N + (warm if warm_outside else 0), triangle=tri or approx or shortcut is not None)
+            X = SArr.from_typed(np.arange(N))
         X0 = X.copy()
+
+        def init_arg(ids):
+            return [M.point(t) for t in ids] if data else list(ids)
         kwargs = {}
         cutoff = 0
         k_req = math.inf
         if mode in ('r', 'both', 'r-None'):
             cutoff = core.fresh_real('cutoff')
             ctx.add(core.to_z3_real(cutoff) >= 0)
+            if data:        # exactly representable in the replay
+                ctx.add(core.to_z3_real(cutoff) * 8 == z3.ToReal(z3.Int('cut8')))
             kwargs['dist_cutoff'] = cutoff
         if mode in ('n', 'both', 'n-None'):
             kwargs['n_clusters'] = k
@@ -298,7 +390,7 @@ def kcenters_job(N, mode, k=None, warm=0, tri=False, entry='function', shortcut=
         init = None
         if warm and warm_outside:
             init = [N + t for t in range(warm)]
-            kwargs['init_centers'] = list(init)
+            kwargs['init_centers'] = init_arg(init)
             # assumption of these jobs: every initial center attracts at least one frame (an initial center without any frame
             # has no center index at all on this code base: find_cluster_centers only reports non-empty labels)
             for t in init:
@@ -312,6 +404,7 @@ def kcenters_job(N, mode, k=None, warm=0, tri=False, entry='function', shortcut=
                 ctx.add(a.t != b.t)
             kwargs['init_centers'] = list(init)
         init0 = list(init) if init else None
+        init_snap = [list(a.cells()) for a in kwargs['init_centers']] if (data and init) else None
 
         def call(metric, Xarg, kw, use_tri):
             if entry == 'function':
@@ -338,7 +431,7 @@ def kcenters_job(N, mode, k=None, warm=0, tri=False, entry='function', shortcut=
             if shortcut == 'compare':
                 kw2 = dict(kwargs)
                 if init:
-                    kw2['init_centers'] = list(init)
+                    kw2['init_centers'] = init_arg(init)
                 res2 = call(M, X.copy(), kw2, True)
         except Exception as e:      # raised by the code under test
             if os.environ.get('VERIF_DEBUG'):
@@ -355,10 +448,18 @@ def kcenters_job(N, mode, k=None, warm=0, tri=False, entry='function', shortcut=
         def witness(model):
             T = M.table(model)
             cut = ev(model, cutoff) if isinstance(cutoff, SVal) else cutoff
-            sc = scale_of([x for row in T for x in row] + [cut])
-            metric, Mx = concrete_metric(T, sc)
-            if not order_preserved(T, Mx):
-                return dict(UNFAITHFUL, inputs={'D': [[float(x) for x in row] for row in T]})
+            if data:
+                sc = 1
+                vals = M.values(model)
+                metric = concrete_line_metric()
+                Xc0 = np.array([[int(v) if data == 'int' else float(v)] for v in vals[:N]],
+                               dtype=np.int64 if data == 'int' else np.float64)
+            else:
+                sc = scale_of([x for row in T for x in row] + [cut])
+                metric, Mx = concrete_metric(T, sc)
+                if not order_preserved(T, Mx):
+                    return dict(UNFAITHFUL, inputs={'D': [[float(x) for x in row] for row in T]})
+                Xc0 = np.arange(N)
             kw = {}
             if 'dist_cutoff' in kwargs:
                 kw['dist_cutoff'] = None if kwargs['dist_cutoff'] is None else float(cut * sc)
@@ -367,19 +468,24 @@ def kcenters_job(N, mode, k=None, warm=0, tri=False, entry='function', shortcut=
             ini = None
             if init0:
                 ini = [int(ev(model, v)) if isinstance(v, SVal) else int(v) for v in init0]
-                kw['init_centers'] = [np.int64(v) for v in ini]
+                kw['init_centers'] = [np.array([float(vals[v])]) for v in ini] if data else [np.int64(v) for v in ini]
             inputs = {'N': N, 'D': [[float(x) for x in row] for row in T], 'dist_cutoff': float(cut) if cut is not None else None,
                       'n_clusters': kwargs.get('n_clusters', 'default'), 'init_centers': ini, 'entry': entry,
                       'mode': mode, 'use_triangle_inequality': shortcut}
+            if data:
+                inputs['frames (points on a line, metric |x-y|)'] = Xc0.tolist()
+                inputs['frame_dtype'] = str(Xc0.dtype)
+                if init0:
+                    inputs['init_center_values (float64)'] = [float(vals[v]) for v in ini]
             out = {'inputs': inputs}
-            Xc = np.arange(N)
+            Xc = Xc0.copy()
             with core.concrete_mode():
                 try:
                     r1 = call(metric, Xc, kw, shortcut == 'only')
                     r2 = None
                     if shortcut == 'compare':
                         kw2 = dict(kw)
-                        r2 = call(metric, np.arange(N), kw2, True)
+                        r2 = call(metric, Xc0.copy(), kw2, True)
                 except Exception as e:
                     out['exception'] = repr(e)
                     out['out'] = None
@@ -394,13 +500,14 @@ def kcenters_job(N, mode, k=None, warm=0, tri=False, entry='function', shortcut=
             dfun = lambda i, j: float(T[int(i)][int(j)])
             bad = []
             if 'C01' in props:
-                bad += run_oracle(oracle_consistent(N, _R(co), dfun))
+                bad += run_oracle(oracle_consistent(N, _R(co), dfun,
+                                                    same_frame=(lambda v, cj: Fraction(v) == vals[int(cj)]) if data else None))
             if 'C02' in props:
                 cc_ = (list(ini) + list(co['center_indices'][warm:])) if warm_outside else co['center_indices']
                 g, _ = oracle_greedy(N, cc_, co['distances'], k_req, float(cut) if cut is not None else 0.0,
                                      dfun, warm, cold=not warm)
                 bad += run_oracle(g)
-            if not np.array_equal(Xc, np.arange(N)):
+            if not np.array_equal(Xc, Xc0):
                 bad.append('input-data-modified')
             if r2 is not None:
                 c2 = _concrete_out(r2, sc)
@@ -426,14 +533,17 @@ def kcenters_job(N, mode, k=None, warm=0, tri=False, entry='function', shortcut=
                            desc='raises %s' % type(exc).__name__)
         obs = []
         if 'C01' in props:
-            obs += oracle_consistent(N, res, M.d)
+            obs += oracle_consistent(N, res, M.d, same_frame=(lambda ctr, cj: _scalar(ctr) == SFloat(0, M.P(core.to_z3_int(cj)))) if data else None)
         r = None
         if 'C02' in props:
             cc_ = (list(init0) + list(res.center_indices)[warm:]) if warm_outside else list(res.center_indices)
             g, r = oracle_greedy(N, cc_, cells(res.distances), k_req, cutoff, M.d, warm, cold=not warm)
             obs += g
         obs.append(('input-data-unmodified', conj([a == b for a, b in zip(X.cells(), X0.cells())])))
-        if init0:
+        if init_snap is not None:
+            obs.append(('init-centers-unmodified', conj([x == y for a, b in zip(kwargs['init_centers'], init_snap)
+                                                         for x, y in zip(a.cells(), b)])))
+        elif init0:
             obs.append(('init-centers-unmodified', conj([a == b for a, b in zip(kwargs['init_centers'], init0)])))
         if res2 is not None:
             same = [a == b for a, b in zip(res.center_indices, res2.center_indices)]
